@@ -140,7 +140,8 @@ def gen_cases(ctx):
     out.append((pick(v), v))
   edge = (pv.INTS + pv.FLOATS + pv.NUMERIC_STRS + pv.BOOL_STRS + pv.JSON_STRS + pv.ISO_STRS + pv.RECLIST_STRS + pv.TEXTS + pv.BYTES)
   giant_types = [T for T in types if type(T).__name__ in ('Text', 'Int', 'Numeric', 'ChoiceList')]
-  for v in pv.GIANTS:
+  # decimal conversion of a 4300-digit int costs ~20 s inside Coq: the two edge values only in the thorough tier
+  for v in (pv.GIANTS if ctx.tier == 'thorough' else pv.GIANTS[-1:]):
     out.append((rng.choice(giant_types), v))
   if ctx.tier == 'thorough':
     for T in types:
